@@ -387,6 +387,10 @@ def run(report, prog, tier):
     # ISO-DEP blocks are protected by the chip's CRC check: no driver routes an ISO-DEP capable target through the Type 2 path
     from .c14 import rule_crc_routing
     rule_crc_routing(report, prog, rule='C12-R7')
+    # block level recovery rests on how the drivers classify what the chip reports: a damaged block has to surface as TransmissionError
+    # (answered with R(NAK)), not as ProtocolError (which ends the exchange): the mapping obligations of C13-R2, reported as C12-R8
+    from . import c13
+    report.run_as({'C13-R2': 'C12-R8'}, c13.rule_mapping, prog)
     report.trusted += ['ISO/IEC 14443-4 block formats (PCB values), FSCI table', 'clf.exchange raises only CommunicationError subclasses or IOError (C13)']
     report.assumptions += ['the card model (at-most-once execution) is out of reach of a static rule']
 
